@@ -29,7 +29,9 @@ RULE = ('Streams: secret (16 bytes: random, all-zero, all-FF), outbound '
 RULE += (' ' +
          'Round 11: logins after the application seeded the global PRNG '
          'identically each time, and under a frozen wall clock: secrets '
-         'still differ. ')
+         'still differ. Round 13: component surface - every other '
+         'payload-moving method of a socket / file object is absent on the '
+         'wrappers or goes through the cipher. ')
 LEVEL_TEXT = ('Differential testing of the cipher wrappers and the RSA '
               'envelope against independent implementations over generated '
               'secrets, streams, call partitions and interleavings.')
